@@ -157,6 +157,8 @@ func drvFec(c *ctx) error {
 		for _, sz := range []int{0, -1, -16, 7, 1 << 30} {
 			c.emit(fecEvent(c.bytesN(20), sz, 2))
 		}
+		// a redundancy count beyond 8379: the PRBS seed 1 + 1001 N no longer fits 23 bits (few, tiny fragments)
+		c.emit(fecEvent(c.bytesN(2*(2+c.rnd.Intn(9))), 2, 8380+c.rnd.Intn(600)))
 		c.emit(fecEvent([]byte{}, 0, 0))
 		c.emit(fecEvent([]byte{}, 4, 3))
 		c.emit(fecEvent(c.bytesN(12), 4, 0))
